@@ -1658,6 +1658,7 @@ func oracle(c Case) vkit.Outcome {
 	return out
 }
 
+var reStringLit = regexp.MustCompile("\"(\\\\.|[^\"\\\\])*\"|`[^`]*`")
 var reInlineComment = regexp.MustCompile(`/\*.*?\*/|//.*$`)
 var reLabelLine = regexp.MustCompile(`^[A-Za-z_][A-Za-z_0-9]*:$`)
 
@@ -1714,11 +1715,7 @@ func locateParseFailure(src string, raw []tok) (int, int) {
 	// line of one of the two. Those are the "{}" tokens of a line beyond the
 	// number of "{}" the line shows.
 	code := func(l int) string {
-		x := lines[l-1]
-		if k := strings.Index(x, "//"); k >= 0 {
-			x = x[:k]
-		}
-		return strings.TrimSpace(x)
+		return strings.TrimSpace(reInlineComment.ReplaceAllString(reStringLit.ReplaceAllString(lines[l-1], `""`), ""))
 	}
 	for l, idx := range crushed {
 		extra := len(idx) - strings.Count(code(l), "{}")
@@ -1760,7 +1757,7 @@ func locateParseFailure(src string, raw []tok) (int, int) {
 		return sel
 	}
 	isSeparator := func(l int) bool {
-		t := strings.TrimSpace(lines[l-1])
+		t := code(l)
 		return strings.HasPrefix(t, "case ") || strings.HasPrefix(t, "default:") || strings.HasPrefix(t, "} else") || strings.HasPrefix(t, "} catch")
 	}
 	lo, hi := 1, len(lines)
@@ -1817,11 +1814,11 @@ func locateParseFailure(src string, raw []tok) (int, int) {
 		lo, hi = culprit.from, culprit.to
 		// descend only into a statement block: first line ends in a "{" that
 		// opens a block, last line closes it
-		if hi-lo < 2 || lastOpen[lo] < 0 || braceIsComposite(raw, lastOpen[lo], false) && !strings.HasPrefix(strings.TrimSpace(lines[lo-1]), "func") {
+		if hi-lo < 2 || lastOpen[lo] < 0 || braceIsComposite(raw, lastOpen[lo], false) && !strings.HasPrefix(code(lo), "func") {
 			return lo, hi
 		}
-		first := strings.TrimSpace(lines[lo-1])
-		if !strings.HasSuffix(first, "{") && !strings.Contains(first, "{ //") && !strings.Contains(first, "{ /*") {
+		first := code(lo)
+		if !strings.HasSuffix(first, "{") {
 			return lo, hi
 		}
 		if strings.HasPrefix(first, "type ") || strings.HasPrefix(first, "const") || strings.HasPrefix(first, "var") || strings.HasPrefix(first, "import") {
